@@ -7,6 +7,8 @@ import (
 	"context"
 	"crypto/sha256"
 	"fmt"
+	"io"
+	"math/rand"
 	"os"
 	"os/exec"
 	"path/filepath"
@@ -131,6 +133,23 @@ func run(c *harness.Ctx, i int) {
 		if err := desync.Tar(context.Background(), &buf, desync.NewLocalFS(root, desync.LocalFSOptions{})); err != nil {
 			c.Violation("tar-failed", "Tar of a generated tree failed: %v", err)
 			return
+		}
+		if i%7 == 3 {
+			// files that change size between the lstat and the read (log files, /proc-like files): the archive is either
+			// refused or well-formed, never a payload header that disagrees with the bytes that follow it
+			var ub bytes.Buffer
+			ur := &unstableReader{fs: desync.NewLocalFS(root, desync.LocalFSOptions{}), rng: rng}
+			uerr := desync.Tar(context.Background(), &ub, ur)
+			if uerr == nil && ur.changed > 0 {
+				if _, verr := oracle.ValidateCatar(ub.Bytes(), true); verr != nil {
+					c.Violation("malformed-archive:unstable-file", "%d files delivered more or fewer bytes than their recorded size (%s); Tar reported success and the archive is malformed: %v", ur.changed, ur.how, verr)
+					return
+				}
+			}
+			if ur.changed > 0 {
+				c.Count("archives_of_unstable_files", 1)
+				c.NonTrivial("unstable|%s|err%v", ur.how, uerr != nil)
+			}
 		}
 		for _, e := range entries {
 			if e.Kind != "fifo" && e.Kind != "sock" {
@@ -305,6 +324,38 @@ func run(c *harness.Ctx, i int) {
 	c.Sample(map[string]interface{}{"source": source, "entries": len(got), "archive_bytes": buf.Len(), "max_fanout": maxKids, "depth": depth, "specials_in_source": o.Specials})
 	_ = dsu.Tick
 	_ = os.Stat
+}
+
+// unstableReader hands out files whose content is longer or shorter than the size recorded in the entry.
+type unstableReader struct {
+	fs      desync.FilesystemReader
+	rng     *rand.Rand
+	changed int
+	how     string
+}
+
+type rc struct {
+	io.Reader
+	io.Closer
+}
+
+func (u *unstableReader) Next() (*desync.File, error) {
+	f, err := u.fs.Next()
+	if err != nil || f == nil || f.Data == nil || u.rng.Intn(3) != 0 {
+		return f, err
+	}
+	u.changed++
+	if u.rng.Intn(2) == 0 {
+		u.how = "grew"
+		f.Data = rc{io.MultiReader(f.Data, bytes.NewReader(make([]byte, 1+u.rng.Intn(5000)))), f.Data}
+	} else if f.Size > 0 {
+		u.how = "shrank"
+		f.Data = rc{io.LimitReader(f.Data, int64(u.rng.Intn(int(f.Size)))), f.Data}
+	} else {
+		u.how = "grew"
+		f.Data = rc{bytes.NewReader([]byte("appeared")), f.Data}
+	}
+	return f, nil
 }
 
 func sorted(m map[string]string) []string {
